@@ -57,6 +57,9 @@ func (w *World) project(rec Rec) {
 	if w.Proj["oracle"] {
 		post["oracle"] = w.projOracle()
 	}
+	if w.Proj["reports"] {
+		post["reports"] = w.projReports()
+	}
 	if w.Proj["aggs"] {
 		post["aggs"] = w.projAggs()
 	}
@@ -108,8 +111,10 @@ func (w *World) projBank() Rec {
 		mr := Rec{"init": m.Initialized, "hasprev": m.PreviousBlockTime != nil}
 		if m.PreviousBlockTime != nil {
 			mr["prev"] = ms(*m.PreviousBlockTime)
+			mr["prevn"] = NumI64(m.PreviousBlockTime.UnixNano())
 		} else {
 			mr["prev"] = Num{}
+			mr["prevn"] = Num{}
 		}
 		r["minter"] = mr
 	}
@@ -147,6 +152,25 @@ func (w *World) projOracle() Rec {
 	r["cycidx"] = int(idx)
 	return r
 }
+
+// projReports lists the micro reports of rounds that are still open (their query meta exists).
+func (w *World) projReports() []Rec {
+	open := map[string]bool{}
+	_ = w.App.OracleKeeper.Query.Walk(w.Ctx, nil, func(k collections.Pair[[]byte, uint64], q oracletypes.QueryMeta) (bool, error) {
+		open[string(k.K1())+"/"+itoa(k.K2())] = true
+		return false, nil
+	})
+	out := []Rec{}
+	_ = w.App.OracleKeeper.Reports.Walk(w.Ctx, nil, func(k collectionsTriple, r oracletypes.MicroReport) (bool, error) {
+		if open[string(k.K1())+"/"+itoa(k.K3())] {
+			out = append(out, Rec{"q": w.QN(k.K1()), "meta": int(k.K3()), "rep": w.Name(r.Reporter), "val": r.Value, "pow": NumU64(r.Power), "h": int(r.BlockNumber), "cyc": r.Cyclelist})
+		}
+		return false, nil
+	})
+	return out
+}
+
+func itoa(u uint64) string { return new(big.Int).SetUint64(u).String() }
 
 func (w *World) projAggs() Rec {
 	out := map[string][]Rec{}
